@@ -44,6 +44,13 @@ func l3Unit(name string, params map[string]int, only string, what string) Unit {
 		Desc: l3Desc + " -- " + what, Bounds: l3Bounds, Quick: mergeParams(l3Base, params), Panic: "inconclusive", Only: only}
 }
 
+// l3UnitT: an L3 unit whose thorough tier uses other parameters than the quick tier.
+func l3UnitT(name string, quick, thor map[string]int, only string, what string) Unit {
+	u := l3Unit(name, quick, only, what)
+	u.Thor = mergeParams(l3Base, thor)
+	return u
+}
+
 var (
 	l3Scalars = map[string]int{"KINDS": 15, "DEPTH": 0}
 	l3Enums   = map[string]int{"KINDS": 8128, "DEPTH": 0}
@@ -93,7 +100,9 @@ func init() {
 	})
 	properties["C05"].Units = append(properties["C05"].Units,
 		l3Unit("numbers", map[string]int{"KINDS": 6, "DEPTH": 0}, "C05.", "number/integer properties: 7 bound shapes x nullable x required x inline/$ref"),
-		l3Unit("numbers-in-arrays-and-objects", map[string]int{"KINDS": 48, "DEPTH": 1, "ITEMKINDS": 6, "NUMSHAPES": 4}, "C05.", "numbers as array items and as members of a nested object"))
+		l3Unit("numbers-in-arrays-and-objects", map[string]int{"KINDS": 48, "DEPTH": 1, "ITEMKINDS": 6, "NUMSHAPES": 4}, "C05.", "numbers as array items and as members of a nested object"),
+		l3UnitT("multiple-of", map[string]int{"KINDS": 6, "DEPTH": 0, "NUMSHAPES": 2, "MULT": 6}, map[string]int{"KINDS": 6, "DEPTH": 0, "NUMSHAPES": 4, "MULT": 6}, "C05.",
+			"number/integer properties with multipleOf 1, 0.5, 3, 2.5 or 300 (integral and fractional, alone or next to bounds) x nullable x required x inline/$ref: accepted iff the value is an exact multiple (remainders within the emitted 1e-10 tolerance carry no promise)"))
 	reg(&Property{
 		ID: "C06",
 		Units: []Unit{
@@ -140,7 +149,10 @@ func init() {
 		l3Unit("nested-objects", l3Objects, "C04.", "required members of a nested object (which is itself required or optional)"))
 	reg(&Property{ID: "C01", Units: append(l3All("C01."),
 		l3Unit("min-sized-ints", map[string]int{"KINDS": 4, "DEPTH": 0, "MINSIZED": 1}, "C01.", "integer properties with --min-sized-ints on and off: every bound literal fits the sized type that was chosen"),
-		l3Unit("defaults", map[string]int{"KINDS": 15, "DEPTH": 0, "DEFAULTS": 1, "NUMSHAPES": 3, "STRSHAPES": 3, "NONULL": 1}, "C01.", "properties with a default together with value constraints (default + validator interplay in the emitted method)")),
+		l3Unit("defaults", map[string]int{"KINDS": 15, "DEPTH": 0, "DEFAULTS": 1, "NUMSHAPES": 3, "STRSHAPES": 3, "NONULL": 1}, "C01.", "properties with a default together with value constraints (default + validator interplay in the emitted method)"),
+		l3UnitT("multiple-of", map[string]int{"KINDS": 6, "DEPTH": 0, "NUMSHAPEMASK": 9, "MULT": 6, "MINSIZED": 1, "REF": 0, "NULLABLE": 0},
+			map[string]int{"KINDS": 6, "DEPTH": 0, "NUMSHAPEMASK": 9, "MULT": 6, "MINSIZED": 1}, "C01.",
+			"number/integer properties with multipleOf (integral, fractional, larger than a narrow type) with and without --min-sized-ints: the emitted remainder test type-checks (math import, operand conversions, constant operands)")),
 		Assumptions: []string{"go/types with the real dependency packages decides type-correctness; gofmt stability is checked on the text with hole identifiers (holes never sit in aligned columns)"}})
 	reg(&Property{ID: "C02", Units: l3All("C02.")})
 	reg(&Property{ID: "C03", Units: l3All("C03.")})
